@@ -473,8 +473,12 @@ func (fx *FnExec) buildQueryMode(o *Obligation, extra []string, relaxed bool) st
 			b.WriteString("(assert " + a + ")\n")
 		}
 	}
-	for _, a := range o.Assumes {
+	for i, a := range o.Assumes {
 		if keep(a) {
+			if o.nameSteps && i >= o.PreLen {
+				b.WriteString(fmt.Sprintf("(assert (! %s :named vstep_%d))\n", a, i))
+				continue
+			}
 			b.WriteString("(assert " + a + ")\n")
 		}
 	}
@@ -542,6 +546,22 @@ func solveReport(rep *FnReport, opts solveOpts) {
 			r := Solve(q, to, false)
 			if o.Invert {
 				// satisfiable or unknown: fine; unsat: the assumptions are contradictory
+				if r.Status == "unsat" && o.PreLen > 0 {
+					// contradictory after the step: a finding only if the path was not
+					// already infeasible before it AND the contradiction uses what the
+					// step assumed (minimized unsat core)
+					pre := *o
+					pre.Assumes = o.Assumes[:o.PreLen]
+					if r0 := Solve(fx.buildQuery(&pre, extra), 10*time.Second, false); r0.Status == "unsat" {
+						r.Status = "unknown"
+					} else {
+						named := *o
+						named.nameSteps = true
+						if us, uses := solveCore(fx.buildQuery(&named, extra), 10*time.Second); !us || !uses {
+							r.Status = "unknown"
+						}
+					}
+				}
 				if r.Status == "unsat" {
 					r.Status = "sat"
 					r.Model = "assumptions are contradictory (vacuous contract)"
